@@ -6,6 +6,9 @@ import "os"
 
 // C01 — reads reflect exactly the accepted writes (public API, bounded
 // builder history followed by one operation of every kind).
+// an identifier chosen by the caller, as Windows-style tools print them: upper-case hex
+const vhCallerUUID = "6BA7B810-9DAD-41D1-80B4-00C04FD430C8"
+
 var vhC01Gone []string // identifiers deleted during the run
 
 func VH_C01_crud() {
@@ -63,10 +66,10 @@ func vhC01Step(db *DB, root string, rows []vhRow) (*DB, []vhRow) {
 		rows = append(rows, vhRow{o.UUID(), *o})
 	case 1: // insert an object that already carries an identifier: kept
 		o := vhNewObj()
-		o.Initialize("12345678-1234-4234-8234-123456789abc")
+		o.Initialize(vhCallerUUID)
 		err := db.InsertOrUpdate(o)
 		vAssert("C01.insert_ident.ok", err == nil)
-		vAssert("C01.insert_ident.kept", o.UUID() == "12345678-1234-4234-8234-123456789abc")
+		vAssert("C01.insert_ident.kept", o.UUID() == vhCallerUUID)
 		if k := vhFindRow(rows, o.UUID()); k >= 0 {
 			rows[k].o = *o // the identifier is already stored: this was an update
 		} else {
